@@ -141,6 +141,10 @@ func chargedProps(opKind, mismatchKind string) []string {
 		return []string{"C14"}
 	case "create_topic", "delete_topic", "create_sub", "delete_sub":
 		return []string{"C12", "C17", "C01", "C02"}
+	case "rpc":
+		// a control-plane request inside a data-plane history (UpdateSubscription with a mask): the
+		// configuration it stores is what every later operation of the history runs under
+		return []string{"C17", "C12", "C16", "C01", "C02", "C04", "C05", "C06", "C14"}
 	case "advance":
 		return nil
 	}
